@@ -658,3 +658,59 @@ Proof.
   intros Hl Hr Hnext H d. unfold end_block in H. repeat inv1 H.
   match goal with Hlp : lppd_run s = Ok ?s1 |- _ => rewrite (rewards_run_gap s1 s' minted burned (Hnext s1 Hlp) H d); exact (lppd_run_gap s s1 Hl Hr Hlp d) end.
 Qed.
+
+(* ---------- chains of blocks: transactions and the per-block processing together ---------- *)
+Inductive chain_step :=
+| CTx (fee : Z) (m : clp_msg)       (* a delivered transaction *)
+| CEndBlock                         (* x/clp EndBlocker: provider distribution, then depth rewards *)
+| CEpochEnd                         (* the epoch hook: rewards buckets paid out *)
+| CNextBlock.                       (* the height advances *)
+(* a hook that fails leaves the state of the block as it was (the model's Err / Panic outcomes are observed separately) *)
+Definition chain_apply (s : clp_state) (st : chain_step) : clp_state :=
+  match st with
+  | CTx fee m => fst (deliver s fee m)
+  | CEndBlock => match end_block s with Ok (s', _, _) => s' | _ => s end
+  | CEpochEnd => match after_epoch_end s with Ok s' => s' | _ => s end
+  | CNextBlock => s <| cs_height := cs_height s + 1 |>
+  end.
+(* what each step relies on in the state it starts from *)
+Definition step_ready (s : clp_state) (st : chain_step) : Prop :=
+  match st with
+  | CTx _ m => good s /\ signer_of m <> CLP_MODULE
+  | CEndBlock => lppd_ready s /\ Forall (fun p => 0 <= pd_rate p <= PREC) (cs_lppd_periods s) /\
+                 (forall s1, lppd_run s = Ok s1 -> rewards_ready s1)
+  | CEpochEnd => Forall (fun kv => no_module_lp (snd kv)) (cs_lps s)
+  | CNextBlock => True
+  end.
+Fixpoint chain_ready (s : clp_state) (steps : list chain_step) : Prop :=
+  match steps with
+  | [] => True
+  | st :: rest => step_ready s st /\ chain_ready (chain_apply s st) rest
+  end.
+Definition no_decommission (st : chain_step) : bool := match st with CTx _ m => negb (is_decommission m) | _ => true end.
+
+Lemma chain_apply_gap s st : step_ready s st ->
+  forall d, gap s d <= gap (chain_apply s st) d /\ (no_decommission st = true -> gap (chain_apply s st) d = gap s d).
+Proof.
+  intros Hr d. destruct st as [fee m| | |]; cbn [chain_apply step_ready no_decommission] in *.
+  - destruct Hr as [[Hwf Hc] Hsg]. destruct (deliver_gap s fee m Hsg Hwf Hc d) as [H1 H2]. split; [exact H1|].
+    intros Hn. apply H2. destruct (is_decommission m); [discriminate|reflexivity].
+  - destruct Hr as (H1 & H2 & H3). destruct (end_block s) as [[[s' mi] bu]| |] eqn:E; [|split; [lia|reflexivity]..].
+    rewrite (end_block_gap s s' mi bu H1 H2 H3 E d). split; [lia|reflexivity].
+  - destruct (after_epoch_end s) as [s'| |] eqn:E; [|split; [lia|reflexivity]..].
+    rewrite (after_epoch_end_gap s s' Hr E d). split; [lia|reflexivity].
+  - split; [apply Z.le_refl|reflexivity].
+Qed.
+
+(* C01 over chains of blocks: the module account covers the recorded amounts after every step, and holds exactly as
+   much beyond them as at the start as long as no pool is decommissioned *)
+Theorem chain_gap : forall steps s, chain_ready s steps ->
+  forall d, gap s d <= gap (fold_left chain_apply steps s) d /\
+            (forallb no_decommission steps = true -> gap (fold_left chain_apply steps s) d = gap s d).
+Proof.
+  induction steps as [|st rest IH]; intros s Hr d; cbn [fold_left forallb]; [split; [lia|reflexivity]|].
+  destruct Hr as [Hst Hrest]. destruct (chain_apply_gap s st Hst d) as [A1 A2]. destruct (IH _ Hrest d) as [B1 B2].
+  split; [lia|]. intros Hn. apply andb_true_iff in Hn. destruct Hn as [N1 N2]. rewrite (B2 N2). exact (A2 N1).
+Qed.
+Corollary chain_solvent steps s : chain_ready s steps -> solvent s -> solvent (fold_left chain_apply steps s).
+Proof. intros Hr Hs d. destruct (chain_gap steps s Hr d) as [H _]. specialize (Hs d). lia. Qed.
